@@ -21,7 +21,7 @@ CONSTANTS MaxStages, Deviations
 Kinds == {"proc", "alias"}
 Faults == {"none", "redirect_unopenable", "not_found", "alias_raises", "consumer_exits_early", "input_missing"}
 
-VARIABLES shape,      \* [n, kinds, redirect (stage with an output redirect or 0), captured, bg (trailing &), fault, at (stage the fault hits)]
+VARIABLES shape,      \* [n, kinds, redirect (stage with an output redirect or 0), captured, bg (trailing &), infile (stage 1 reads `< file`), fault, at (stage the fault hits)]
           pc,         \* "idle" | "build" | "wire" | "start" | "drain" | "close" | "bgrelease" | "bgwait" | "done"
           i,          \* stage counter of the current phase
           owned,      \* set of resources the shell holds: <<kind, stage>>
@@ -30,18 +30,18 @@ VARIABLES shape,      \* [n, kinds, redirect (stage with an output redirect or 0
           res
 vars == <<shape, pc, i, owned, handlers, failed, res>>
 
-Shapes == UNION {[n : {n}, kinds : [1..n -> Kinds], redirect : 0..n, captured : BOOLEAN, bg : BOOLEAN, fault : Faults, at : 1..n] : n \in 1..MaxStages}
+Shapes == UNION {[n : {n}, kinds : [1..n -> Kinds], redirect : 0..n, captured : BOOLEAN, bg : BOOLEAN, infile : BOOLEAN, fault : Faults, at : 1..n] : n \in 1..MaxStages}
 \* the fault must make sense for the shape
 Sensible(s) ==
   /\ (s.fault = "redirect_unopenable" => s.redirect = s.at)
   /\ (s.fault = "alias_raises" => s.kinds[s.at] = "alias")
   /\ (s.fault = "not_found" => s.kinds[s.at] = "proc")
   /\ (s.fault = "consumer_exits_early" => s.n >= 2 /\ s.at = s.n)
-  /\ (s.fault = "input_missing" => s.at = 1)
+  /\ (s.fault = "input_missing" => s.at = 1 /\ s.infile)
   /\ (s.fault = "none" => s.at = 1)
   /\ (s.bg => ~s.captured)            \* `$(cmd &)` is not a shape: a background pipeline is not captured
 
-Init == shape = [n |-> 1, kinds |-> <<"proc">>, redirect |-> 0, captured |-> FALSE, bg |-> FALSE, fault |-> "none", at |-> 1]
+Init == shape = [n |-> 1, kinds |-> <<"proc">>, redirect |-> 0, captured |-> FALSE, bg |-> FALSE, infile |-> FALSE, fault |-> "none", at |-> 1]
         /\ pc = "idle" /\ i = 0 /\ owned = {} /\ handlers = "original" /\ failed = FALSE /\ res = [clean |-> TRUE, dev |-> ""]
 
 When(S) == IF pc = "idle" THEN S ELSE {}
@@ -59,6 +59,7 @@ Build == /\ pc = "build"
                         /\ \/ ReleaseAll
                            \/ "Dev_RedirectFailureLeaks" \in Deviations /\ UNCHANGED owned
                    ELSE /\ owned' = owned \cup (IF shape.redirect = i THEN {<<"file", i>>} ELSE {})
+                                          \cup (IF i = 1 /\ shape.infile THEN {<<"infile", 1>>} ELSE {})
                         /\ i' = i + 1 /\ UNCHANGED <<pc, failed>>
          /\ UNCHANGED <<shape, handlers, res>>
 
@@ -151,6 +152,6 @@ Quiescent == pc = "done"
 LeavesNothing == Quiescent => owned = {} /\ handlers = "original"
 \* once every stage has ended the shell holds no write end of a connecting pipe any more
 NoWriterAfterDrain == pc = "close" => \A k \in 1..shape.n : <<"pipeW", k>> \notin owned
-OnlyRunningThingsWhileDraining == pc = "drain" => \A r \in owned : r[1] \in {"child", "thread", "pump", "capR", "capW", "pipeR", "pipeW", "file"}
+OnlyRunningThingsWhileDraining == pc = "drain" => \A r \in owned : r[1] \in {"child", "thread", "pump", "capR", "capW", "pipeR", "pipeW", "file", "infile"}
 Terminates == <>(pc = "done")
 =============================================================================
